@@ -248,7 +248,8 @@ class Check:
             "seed": int(os.environ.get("VERIF_SEED", "0") or 0),
             "level": "other",
             "coverage": {
-                "explanation": explanation,
+                "explanation": explanation + " || Rules as run by this check (id: what it decides): " + "; ".join(
+                    "%s: %s" % (getattr(r, "id_display", r.id), r.title) for r in self.rules if not getattr(r, "id_display", r.id).endswith("@UNDEBUG")),
                 "obligations": obligations,
                 "discharged": discharged,
                 "known_findings_reported": nknown,
